@@ -145,3 +145,29 @@ def o3(ctx):
 
 
 RULES.append(o3)
+
+
+@rule("O4", doc="a work-list request for full re-processing always recomputes the e-node's strong shape: no path through the handler skips the re-canonicalisation because 'the children did not change'")
+def o4(ctx):
+    crate = ctx.lib()
+    n = 0
+    for hid in C.need("re-insert function (handle_pending)", C.reinsert_functions(crate)):
+        b = mir.inline_view(crate, crate.bodies[hid], keep=("shape", "proven_shape", "proven_proven_shape", "lookup_internal", "raw_add_to_class", "raw_remove_from_class", "handle_congruence", "determine_self_symmetries", "update_analysis"))
+        shapes = {c.bb for c in b.calls if c.callee and c.callee.name in ("shape", "proven_shape", "proven_proven_shape") and not b.blocks[c.bb]["cleanup"]}
+        # the analysis-only early return: an edge of a switch on the discriminant of the pending-type parameter
+        only = []
+        for sb in b.switch_blocks():
+            r = b.role_of_operand(b.blocks[sb]["term"]["discr"])
+            if r[0] == "discr" and strip_role(r[1])[0] == "param" and "PendingType" in b.local_ty(b.param_index(strip_role(r[1])[1]) or 0):
+                adt = crate.adt_named("egraph::PendingType")
+                names = [v["name"] for v in adt["variants"]] if adt else []
+                if "OnlyAnalysis" in names:
+                    only += C.variant_edges(b, sb, names.index("OnlyAnalysis"), nvariants=len(names))
+        n += 1
+        ok = bool(shapes) and b.must_pass([0], b.return_blocks(), shapes | set(only))
+        ctx.check(ok, "full-request-reshapes:" + C.fkey(crate.bodies[hid]), "every path through %s is the analysis-only return or recomputes the node's shape" % C.short(hid),
+                  "%s has a path that handles a Full request without calling shape(): the strong shape of an e-node depends on the symmetry groups of its child classes, not only on their ids and slots — when a child gained a symmetry the parent is re-queued precisely to be re-keyed. Skipping that (e.g. 'find_enode(node) == node, nothing changed') leaves stale hashcons keys: congruent parents are never merged, and whether that happens depends on the order of insertions and unions" % C.short(hid), where_of(b))
+    ctx.floor("work-list handlers", n, 1)
+
+
+RULES.append(o4)
